@@ -545,15 +545,15 @@ func c15ConfirmRaces(t *testing.T, r verifsim.Result, prop, tier string) verifsi
 			}
 		}
 	}
-	var keep []verifsim.Violation
-	for _, v := range r.Violations {
+	for i := range r.Violations {
+		v := &r.Violations[i]
 		if v.Class == "race" && !apiKnown[v.Property+"\x00"+v.Signature] && !unknown[v.Signature] {
-			r.Info["race_reports_not_reproduced"]++
-			continue
+			// not seen again in this process: left to the worker, which re-executes the tape in
+			// fresh processes (a race on state that is initialised once per process shows only there)
+			r.Info["race_reports_not_reproduced_in_process"]++
+			v.Unconfirmed = true
 		}
-		keep = append(keep, v)
 	}
-	r.Violations = keep
 	return r
 }
 
